@@ -7,6 +7,7 @@
 -/
 import GoBT.Sighash.Model
 import GoBT.Props.C01
+import GoBT.Gen.Limits
 namespace GoBT.C03
 open GoBT GoBT.Sighash
 
@@ -178,5 +179,13 @@ def sample : Tx :=
 example : sample.wf ∧ sample.inputs[1]? = some (sample.inputs[1]?.getD default) ∧
     (3 &&& 0x1f = 3 ∧ sample.outputs.length ≤ 1) ∧ ¬ (3 &&& 0x1f = 3 ∧ sample.outputs.length ≤ 0) :=
   ⟨by simp [-List.reduceReplicate, Tx.wf, Input.wf, Output.wf, sample, optLen], rfl, by decide, by decide⟩
+
+/-- ✓gen — the hash-type constants of sighash/flag.go are the ones the model uses -/
+theorem sighash_consts_match :
+    GoBT.Gen.intConsts.lookup "sighash.All" = some (fAll : Int) ∧ GoBT.Gen.intConsts.lookup "sighash.None" = some (fNone : Int) ∧
+    GoBT.Gen.intConsts.lookup "sighash.Single" = some (fSingle : Int) ∧
+    GoBT.Gen.intConsts.lookup "sighash.AnyOneCanPay" = some (fAnyOneCanPay : Int) ∧
+    GoBT.Gen.intConsts.lookup "sighash.ForkID" = some (fForkID : Int) ∧ GoBT.Gen.intConsts.lookup "sighash.Mask" = some (fMask : Int) := by
+  decide +kernel
 
 end GoBT.C03
